@@ -31,6 +31,7 @@ type textOpts struct {
 	maxAtoms  int
 	noPunct   []string // punctuation atoms to leave out
 	onlyASCII bool
+	raw       bool // keep everything: line terminators, NUL, leading/trailing white space (hostile texts)
 }
 
 func genAtom(t *rapid.T, o textOpts) string {
@@ -101,6 +102,9 @@ func genText(t *rapid.T, o textOpts) string {
 }
 
 func sanitizeText(s string, o textOpts) string {
+	if o.raw {
+		return s
+	}
 	s = strings.Map(func(r rune) rune {
 		switch r {
 		case '\n', '\r', '\u0085', '\u2028', '\u2029', '\v', '\f':
